@@ -139,6 +139,8 @@ package texttable
 //@   loop#7 invariant -1 <= rangeindex && rangeindex < len(rangeslice) && -1 <= rangeindex6 && rangeindex6 + 1 < len(ttab(t).rows) && t != nil && tbl(t.Table) && alignsValid(ttab(t)) && measuredOK() && !Wfailed && columnCount == ttab(t).nColumns && columnCount <= 1048576 && len(columnWidths) == columnCount && fresh(columnWidths) && len(columnAligns) == columnCount && fresh(columnAligns) && (ttab(t).headerRow == nil ==> len(headers) == 0) && (ttab(t).headerRow != nil ==> headers === ttab(t).headerRow.cells) && widthsOK(columnWidths) && emitter.decor == &t.decor && emitter.colWidths === columnWidths && -4611686018427387904 <= emitter.totalWidth && emitter.totalWidth <= 4611686018427387904 && (forall i int :: {columnAligns[i]} 0 <= i && i < columnCount ==> columnAligns[i] == effAlign(ttab(t), i))
 //@   loop#7 assigns nothing
 //@   loop#7 decreases len(rangeslice) - rangeindex
+//@   call HeaderLineRendered before assert [header-line-parts-passed-through] arg2 === columnAligns && arg0.colWidths === columnWidths && len(arg1) == columnCount @C04
+//@   call BodyLineRendered before assert [body-line-parts-passed-through] arg2 === columnAligns && arg0.colWidths === columnWidths && len(arg1) == columnCount @C04
 //@   call HeaderLineRendered before assert [header-line-aligned-as-columns-ask] forall i int :: {columnAligns[i]} 0 <= i && i < columnCount ==> columnAligns[i] == effAlign(ttab(t), i) @C04
 //@   call BodyLineRendered before assert [body-line-aligned-as-columns-ask] forall i int :: {columnAligns[i]} 0 <= i && i < columnCount ==> columnAligns[i] == effAlign(ttab(t), i) @C04
 
